@@ -201,3 +201,54 @@ func VF_Counter_L1() {
 	vf.Assert(c1.Value == int32(int64(v0)+int64(d1)+int64(d2)), "C02 counter is the wrapping sum")
 	vf.Assert(c1.ToJSON().(int32) == c1.Value, "C01 JSON view is the value")
 }
+
+// VF_Map_L2: from an arbitrary pre-state, a local call whose timestamp is newer
+// than everything the replica holds (L4) either is refused and then leaves the
+// state structurally as it was - tombstone times included, because they decide
+// later conflicts - or yields exactly the state that delivering the operation to
+// a copy yields (local form == remote form).
+func VF_Map_L2() {
+	k := vf.Choice("k", mapBounds()+1)
+	sp := vfMapSpec("S", k)
+	ts := vfOpTS("op.ts")
+	for _, e := range sp.ents {
+		vf.Assume(ts.Lamport > e.T.Lamport)
+	}
+	key := vfKeys[vf.Choice("op.key", len(vfKeys))]
+	s0, s1, s2 := sp.build(), sp.build(), sp.build()
+	var present, live bool
+	var old interface{}
+	for _, e := range sp.ents {
+		if e.key == key {
+			present = true
+			live = !e.tomb
+			if live {
+				old = e.val
+			}
+		}
+	}
+	kind := vf.Choice("op.kind", 2)
+	vf.Tag("kind", kind)
+	if kind == 0 {
+		ret, err := s1.putCommon(key, "new", cloneTS(ts))
+		_, _ = s2.putCommon(key, "new", cloneTS(ts))
+		vf.Reach("put")
+		vf.Assert(err == nil && ret == old, "C03 put returns the previous value")
+		vf.Assert(s1.get(key) == "new", "C03 put is readable")
+	} else {
+		ret, err := s1.removeLocal(key, cloneTS(ts))
+		vf.Reach("remove")
+		if live {
+			vf.Assert(err == nil && ret == old, "C03 remove returns the removed value")
+			_, _ = s2.removeRemote(key, cloneTS(ts))
+			vf.Assert(s1.get(key) == nil, "C03 removed key is absent")
+		} else {
+			_ = present
+			vf.Assert(err != nil, "C03 removing an absent key is refused")
+			s2 = s0 // a refused call issues no operation: nothing is delivered anywhere
+			vf.Assert(sameMap(s1, s0), "C03 a refused call changes nothing, not even the time of a tombstone")
+		}
+	}
+	vf.Assert(mapInv(s1) && mapInv(s2), "L3 invariant after local / remote form")
+	vf.Assert(sameMap(s1, s2), "L2 local == remote")
+}
